@@ -1418,7 +1418,190 @@ async fn run_pc_scenario(sc: &Value) -> Outcome {
     o
 }
 
+/// SDES-SRTP PeerConnection whose key negotiation cannot complete: the remote description carries no
+/// usable `a=crypto` (none at all / an inline key too short for any suite / not base64).  No session
+/// keys exist in such a history, so by the statement nothing RTP/RTCP-like may be emitted (samples
+/// pushed into the sending track, the close-time BYE) and cleartext sent to the connection's port may
+/// not surface on the receiving track.  Whether the description is rejected or the connection fails
+/// is not judged.  The remote peer is a bare harness socket.
+async fn run_pc_nokeys(sc: &Value, o: &mut Outcome) -> Result<(), String> {
+    let debug = std::env::var("C14_DEBUG").is_ok();
+    let mut rng = Rng::new(sc["pseed"].as_u64().unwrap_or(1));
+    let brk = sc["break"].as_str().unwrap_or("no_crypto").to_string();
+    let answerer = sc["pc_role"].as_str() == Some("answerer");
+    let video = sc["video"].as_bool().unwrap_or(false);
+    let mut c = RtcConfiguration::default();
+    c.transport_mode = TransportMode::Srtp;
+    c.bind_ip = Some("127.0.0.1".into());
+    let pc = PeerConnection::new(c);
+    let params = if video {
+        rustrtc::peer_connection::RtpCodecParameters { payload_type: 96, name: "VP8".into(), clock_rate: 90000, channels: 0 }
+    } else {
+        rustrtc::peer_connection::RtpCodecParameters { payload_type: 0, name: "PCMU".into(), clock_rate: 8000, channels: 1 }
+    };
+    let fk = if video { FrameKind::Video } else { FrameKind::Audio };
+    let (src, track, _fb) = rustrtc::media::track::sample_track(fk, 100);
+    pc.add_track(track, params).map_err(|e| format!("add_track: {e}"))?;
+    let peer = UdpSocket::bind("127.0.0.1:0").await.map_err(|e| e.to_string())?;
+    let peer_addr = peer.local_addr().map_err(|e| e.to_string())?;
+    let crypto_line = match brk.as_str() {
+        "short_key" => "a=crypto:1 AES_CM_128_HMAC_SHA1_80 inline:AAECAwQFBgcICQ==\r\n".to_string(),
+        "not_base64" => "a=crypto:1 AES_CM_128_HMAC_SHA1_80 inline:!!!!????####$$$$%%%%^^^^&&&&****((((~~~~\r\n".to_string(),
+        _ => String::new(),
+    };
+    let (kind, fmt, rtpmap) = if video { ("video", 96, "VP8/90000") } else { ("audio", 0, "PCMU/8000") };
+    let remote_sdp = |mid: &str| {
+        format!(
+            "v=0\r\no=- 1 1 IN IP4 {ip}\r\ns=-\r\nc=IN IP4 {ip}\r\nt=0 0\r\nm={kind} {port} RTP/SAVP {fmt}\r\na=mid:{mid}\r\na=rtpmap:{fmt} {rtpmap}\r\n{crypto_line}a=sendrecv\r\n",
+            ip = peer_addr.ip(),
+            port = peer_addr.port()
+        )
+    };
+    let mut set_remote_ok = false;
+    let local_sdp;
+    if answerer {
+        let offer = SessionDescription::parse(SdpType::Offer, &remote_sdp("0")).map_err(|e| format!("parse offer: {e}"))?;
+        match pc.set_remote_description(offer).await {
+            Ok(()) => set_remote_ok = true,
+            Err(_) => {}
+        }
+        let mut l = None;
+        if set_remote_ok {
+            if pc.create_answer().await.is_ok() {
+                pc.wait_for_gathering_complete().await;
+                if let Ok(a) = pc.create_answer().await {
+                    if pc.set_local_description(a.clone()).is_ok() {
+                        l = Some(a.to_sdp_string());
+                    }
+                }
+            }
+        }
+        if l.is_none() {
+            // refused: find the port anyway through an offer of its own, so that cleartext can be aimed at it
+            let _ = pc.create_offer().await;
+            pc.wait_for_gathering_complete().await;
+            l = pc.create_offer().await.ok().map(|d| d.to_sdp_string());
+        }
+        local_sdp = l.ok_or("no local description")?;
+    } else {
+        let _ = pc.create_offer().await.map_err(|e| format!("create_offer: {e}"))?;
+        pc.wait_for_gathering_complete().await;
+        let offer = pc.create_offer().await.map_err(|e| format!("create_offer: {e}"))?;
+        pc.set_local_description(offer.clone()).map_err(|e| format!("set_local: {e}"))?;
+        local_sdp = offer.to_sdp_string();
+        let mid = offer.media_sections.first().map(|m| m.mid.clone()).unwrap_or_else(|| "0".into());
+        let answer = SessionDescription::parse(SdpType::Answer, &remote_sdp(&mid)).map_err(|e| format!("parse answer: {e}"))?;
+        set_remote_ok = pc.set_remote_description(answer).await.is_ok();
+    }
+    if debug {
+        eprintln!("--- nokeys break={brk} answerer={answerer} set_remote_ok={set_remote_ok}\n{local_sdp}");
+    }
+    let pc_addr = sdp_media_addr(&local_sdp).ok_or("local description has no media address")?;
+    o.count(if set_remote_ok { "pc_nokeys_remote_accepted" } else { "pc_nokeys_remote_refused" });
+    // let the transport start (or fail) - bounded, not judged
+    let mut st = pc.subscribe_peer_state();
+    let _ = tokio::time::timeout(Duration::from_millis(1500), async {
+        loop {
+            if matches!(*st.borrow(), rustrtc::PeerConnectionState::Failed | rustrtc::PeerConnectionState::Connected) {
+                break;
+            }
+            if st.changed().await.is_err() {
+                break;
+            }
+        }
+    })
+    .await;
+    tokio::time::sleep(Duration::from_millis(100)).await;
+
+    let leaked = Arc::new(AtomicU64::new(0));
+    let mut rtasks = vec![];
+    for t in pc.get_transceivers() {
+        if let Some(r) = t.receiver() {
+            let tr = r.track();
+            let leaked = leaked.clone();
+            rtasks.push(tokio::spawn(async move {
+                while let Ok(s) = tr.recv().await {
+                    let data = match &s {
+                        MediaSample::Audio(a) => a.data.clone(),
+                        MediaSample::Video(v) => v.data.clone(),
+                    };
+                    if find_magic_id(&data).is_some() {
+                        leaked.fetch_add(1, Ordering::SeqCst);
+                    }
+                }
+            }));
+        }
+    }
+    let ssrc = rng.u32();
+    for i in 0..20u32 {
+        // cleartext RTP (and a PLI) from the address the connection believes to be its peer
+        let mut p = vec![0x80u8, fmt as u8 | if i == 0 { 0x80 } else { 0 }];
+        p.extend_from_slice(&(1000 + i as u16).to_be_bytes());
+        p.extend_from_slice(&(i * 160).to_be_bytes());
+        p.extend_from_slice(&ssrc.to_be_bytes());
+        p.extend_from_slice(MAGIC);
+        p.extend_from_slice(&i.to_be_bytes());
+        p.extend(rng.bytes(152));
+        let _ = peer.send_to(&p, pc_addr).await;
+        o.count("pc_cleartext_injected");
+        o.count("injected_before_keys");
+        if i % 5 == 0 {
+            let pli = marshal_rtcp_packets(&[RtcpPacket::PictureLossIndication(PictureLossIndication {
+                sender_ssrc: RTCP_SSRC_BASE | 1,
+                media_ssrc: RTCP_SSRC_BASE | 1,
+            })])
+            .unwrap_or_default();
+            let _ = peer.send_to(&pli, pc_addr).await;
+        }
+        // the sending track keeps producing: nothing of it may leave without keys
+        let sample = if video {
+            MediaSample::Video(VideoFrame { rtp_timestamp: i * 3000, data: Bytes::from(vec![0x55u8; 300]), is_last_packet: true, ..Default::default() })
+        } else {
+            MediaSample::Audio(AudioFrame { rtp_timestamp: i * 160, clock_rate: 8000, data: Bytes::from(vec![0x55u8; 160]), ..Default::default() })
+        };
+        let _ = src.send(sample);
+        tokio::time::sleep(Duration::from_millis(5)).await;
+    }
+    tokio::time::sleep(Duration::from_millis(sc["linger_ms"].as_u64().unwrap_or(300))).await;
+    pc.close();
+    // outbound barrier: everything the connection wrote before close() returned sits in the peer
+    // socket's queue already (loopback); drain until quiet
+    let mut emitted: Vec<Vec<u8>> = vec![];
+    let mut buf = vec![0u8; 2048];
+    while let Ok(Ok((n, _))) = tokio::time::timeout(Duration::from_millis(400), peer.recv_from(&mut buf)).await {
+        if n >= 2 && (128..=191).contains(&buf[0]) {
+            emitted.push(buf[..n].to_vec());
+        } else {
+            o.count("pc_other_datagrams");
+        }
+    }
+    for t in rtasks {
+        t.abort();
+    }
+    o.count("pc_nokeys_scenarios");
+    if let Some(d) = emitted.first() {
+        let rtcp_like = is_rtcp_bytes(d);
+        o.violate(
+            format!("level=pc,mode=sdes,keys=never_negotiated,kind={},leak=emitted_without_keys", if rtcp_like { "rtcp" } else { "rtp" }),
+            "an SDES-SRTP connection whose remote description carries no usable key emitted RTP/RTCP".into(),
+            json!({"break": brk, "role": if answerer { "answerer" } else { "offerer" }, "datagrams": emitted.len(), "first": hex_cap(d, 64)}),
+        );
+    }
+    if leaked.load(Ordering::SeqCst) > 0 {
+        o.violate(
+            "level=pc,mode=sdes,keys=never_negotiated,sink=track,accepted=cleartext_rtp".into(),
+            "cleartext RTP sent to an SDES-SRTP connection that has no keys surfaced on the receiving track".into(),
+            json!({"break": brk, "role": if answerer { "answerer" } else { "offerer" }, "samples_with_harness_magic": leaked.load(Ordering::SeqCst)}),
+        );
+    }
+    o.seen.push(("pc_nokeys_variants".into(), format!("{brk}:{}:{}", if answerer { "answerer" } else { "offerer" }, if set_remote_ok { "accepted" } else { "refused" })));
+    Ok(())
+}
+
 async fn run_pc_inner(sc: &Value, o: &mut Outcome) -> Result<(), String> {
+    if sc["pc_mode"].as_str() == Some("sdes_nokeys") {
+        return run_pc_nokeys(sc, o).await;
+    }
     let debug = std::env::var("C14_DEBUG").is_ok();
     let webrtc = sc["pc_mode"].as_str() == Some("webrtc");
     let mut rng = Rng::new(sc["pseed"].as_u64().unwrap_or(1));
@@ -1932,7 +2115,7 @@ impl Plan {
                 enums.push(("core", core.clone(), 6, pw(core.len(), 6)));
             }
         }
-        Plan { enums, random: tier.pick(4000, 50000), race: tier.pick(8000, 100000), pc: tier.pick(4, 12) }
+        Plan { enums, random: tier.pick(4000, 50000), race: tier.pick(8000, 100000), pc: tier.pick(7, 18) }
     }
     fn total(&self) -> u64 {
         self.enums.iter().map(|e| e.3).sum::<u64>() + self.random + self.race + self.pc
@@ -1940,6 +2123,16 @@ impl Plan {
     fn scenario(&self, seed: u64, mut ix: u64) -> Value {
         let mut rng = Rng::new(seed).fork(ix.wrapping_add(0xC14));
         // PeerConnection-level scenarios first (they take ~1 s of wall each; start them early)
+        let nokeys = if self.pc > 12 { 6 } else { 3 };
+        if ix < self.pc && ix >= self.pc - nokeys {
+            // the last PeerConnection-level scenarios: SDES without negotiable keys
+            let k = (ix - (self.pc - nokeys)) + seed * nokeys;
+            let brk = ["no_crypto", "short_key", "not_base64"][(k % 3) as usize];
+            return json!({"mode": "pc", "family": "pc_sdes_nokeys", "pc_mode": "sdes_nokeys",
+                          "break": brk,
+                          "pc_role": if (k / 3) % 2 == 0 { "offerer" } else { "answerer" },
+                          "video": (k / 6) % 2 == 1, "linger_ms": 300, "pseed": rng.next_u64() >> 16, "n": ix});
+        }
         if ix < self.pc {
             let m = if ix % 2 == 0 { "sdes" } else { "webrtc" };
             return json!({"mode": "pc", "family": format!("pc_{m}"), "pc_mode": m, "frames": 20 + 10 * (ix % 3),
